@@ -42,6 +42,9 @@ WORKBOOKS = {
 EXTRA = {
     'W7': [corpus.sheet('D')],
     'W8': [('X', {'A1': 0}), corpus.sheet('D')],
+    # the corpus once more at the same addresses with other constants: anything cached per address across translations shows
+    'W9': [('D', {a: ((v * 3 + 1) if isinstance(v, (int, float)) and not isinstance(v, bool) else v)
+                  for a, v in corpus.sheet('D')[1].items()})],
     'W4': [('Data', {'A1': 1, 'A2': 2, 'A3': 'x', 'B1': '=SUMIFS(A1:A3,A1:A3,">1")', 'B2': '=IF(A1>0,"p","n")&A3',
                     'B3': '=VLOOKUP(2,A1:B3,1,0)', 'C1': '=COUNTIFS(A1:A3,"x")', 'C2': '=INDEX(A1:B3,2,1)'})],
     'W5': [('a', {'A1': '=b!A1+c!A1'}), ('b', {'A1': '=c!A1*2'}), ('c', {'A1': 7})],
@@ -80,7 +83,7 @@ def plan(tier, seed):
     seeds = [(s + 7919 * seed) % 4294967295 for s in seeds]
     phases.append({'name': 'hash-seeds', 'cases': [{'hashseed': s} for s in seeds], 'runner': 'run_seed', 'chunk': 1})
     names = sorted({**WORKBOOKS, **EXTRA})
-    phases.append({'name': 'process-history', 'cases': [{'first': a, 'then': b} for a in names for b in names if a != b],
+    phases.append({'name': 'process-history', 'cases': [{'first': a, 'then': b} for a in names for b in names],
                    'runner': 'run_history_pairs', 'chunk': 5})
     from mc.props import c09_se
     phases += c09_se.phases(tier, seed)
